@@ -72,10 +72,10 @@ Definition get_block (off w max_size : N) : out blockbuf :=
         if is_compressed w then
           match uncompress raw max_size with
           | UErr e => Err e
-          | UOk o =>
+          | UOk o rest =>
             if len o =? 0 then Err c_SQFS_ERROR_OVERFLOW
             else if max_size <? len o then Crash
-            else Ok (overwrite o (zeros max_size), len o)
+            else Ok (overwrite (o ++ rest) (zeros max_size), len o)
           end
         else Ok (overwrite raw (zeros max_size), ods)
       end.
@@ -220,7 +220,7 @@ Definition stream_refill (d : dr) (s : stream) : out bool * stream * dr :=
           if is_compressed w then
             match uncompress raw used with
             | UErr e => (Err e, dead_stream s, d)
-            | UOk o =>
+            | UOk o _ =>       (* memset clears whatever is left behind ret *)
               if len o =? 0 then (Err c_SQFS_ERROR_OVERFLOW, dead_stream s, d)
               else if used <? len o then (Crash, dead_stream s, d)
               else fin (o ++ zeros (used - len o)) s' d
